@@ -242,8 +242,78 @@ def _run_with(w, cfg, node):
             return "err", e
 
 
+@st.composite
+def big_cases(draw):
+    return {"fam": "big", "shape": draw(st.sampled_from(["chain", "chain", "fan", "tree", "ladder"])),
+            "n": draw(st.integers(1000, 5000)), "workers": draw(st.sampled_from([1, 2, 4, 8])),
+            "scheduler": draw(st.sampled_from(["default", "random", None])),
+            "output": draw(st.sampled_from(["last", "all", "mid"]))}
+
+
+def check_big_case(ctx, case, record=True):
+    """Plans of a few thousand calls (nothing in uberjob bounds the size of a plan): a long chain, a wide fan-in, a
+    binary reduction tree, a two-rail ladder.  The output must equal plain evaluation."""
+    import operator
+
+    import uberjob
+    n, shape = case["n"], case["shape"]
+    if record:
+        ctx.case(case, True, ["fam:big", "big:" + shape, f"big_nodes:{n // 1000}k"])
+    plan = uberjob.Plan()
+    if shape == "chain":
+        x, v = plan.call(int, 0), 0
+        nodes, vals = [x], [0]
+        for i in range(n):
+            x, v = plan.call(operator.add, x, i % 7), v + i % 7
+            nodes.append(x)
+            vals.append(v)
+    elif shape == "fan":
+        leaves = [plan.call(operator.mul, i, 3) for i in range(n)]
+        nodes = leaves + [plan.call(sum, leaves)]
+        vals = [i * 3 for i in range(n)] + [sum(i * 3 for i in range(n))]
+    elif shape == "tree":
+        nodes = [plan.call(int, i) for i in range(n)]
+        vals = list(range(n))
+        lo = 0
+        while len(nodes) - lo > 1:
+            hi = len(nodes)
+            for a in range(lo, hi - 1, 2):
+                nodes.append(plan.call(operator.add, nodes[a], nodes[a + 1]))
+                vals.append(vals[a] + vals[a + 1])
+            if (hi - lo) % 2:
+                nodes.append(nodes[hi - 1])
+                vals.append(vals[hi - 1])
+            lo = hi
+    else:  # ladder: two chains with rungs
+        a, b, va, vb = plan.call(int, 1), plan.call(int, 2), 1, 2
+        nodes, vals = [a, b], [1, 2]
+        for i in range(n // 2):
+            a, b, va, vb = plan.call(operator.add, a, b), plan.call(operator.sub, b, a), va + vb, vb - va
+            nodes += [a, b]
+            vals += [va, vb]
+    if case["output"] == "last":
+        out, exp = nodes[-1], vals[-1]
+    elif case["output"] == "mid":
+        out, exp = nodes[len(nodes) // 2], vals[len(nodes) // 2]
+    else:
+        out, exp = [nodes[-1], nodes[len(nodes) // 2], nodes[0]], [vals[-1], vals[len(nodes) // 2], vals[0]]
+    kw = {"scheduler": case["scheduler"]} if case["scheduler"] else {}
+    try:
+        got = uberjob.run(plan, output=out, progress=None, max_workers=case["workers"], **kw)
+    except Exception as e:
+        ctx.violation(case, f"a {shape} plan of {len(nodes)} calls: run raised {e!r:.300} (cause {e.__cause__!r:.200})")
+    if got != exp:
+        ctx.violation(case, f"a {shape} plan of {len(nodes)} calls returned {got!r:.200}, plain evaluation gives {exp!r:.200}")
+
+
 def run_shard(ctx):
     max_nodes = 8 if ctx.tier == "quick" else 12
+
+    @given(big_cases())
+    def test_big(case):
+        runner.guarded(ctx, check_big_case, case)
+
+    runner.drive(ctx, test_big, ctx.n(24, 480))
 
     @given(cases(max_nodes))
     def test(case):
@@ -253,6 +323,12 @@ def run_shard(ctx):
 
 
 def replay(ctx, case):
+    if case.get("fam") == "big":
+        try:
+            check_big_case(ctx, case, record=False)
+        except runner.Violation as v:
+            return v.msg
+        return None
     case = common.decode(case)
     for _ in range(3):
         try:
